@@ -58,6 +58,12 @@ def instances(tier):
             for dense in (True, False):
                 out.append(dict(id="event-fault-%s-k%02d-%s" % (fam, k, "dense" if dense else "nodense"), family=fam, N=2, where="event", k=k, exc="RuntimeError",
                                 dense=dense, budget=b))
+    # a terminal event is found and the rhs raises while the step is re-taken up to it (events oracle; real event section of integrate)
+    for fam in (("euler",) if quick else ("euler", "rk4")):
+        for j in ((0,) if quick else (0, 1, 2)):
+            for dense in (True, False):
+                out.append(dict(id="landing-fault-%s-j%d-%s" % (fam, j, "dense" if dense else "nodense"), family=fam, N=2, where="landing", k=j, exc="RuntimeError",
+                                events=["T"], dense=dense, max_reports=2, kind="integrate", landing_fault=j, budget=b))
     # reset() right after the failure (no resume in between) - in particular after a failure in the very first step
     for fam in ("euler", "rk4", "sympl_euler", "dopri45"):
         for k in ((2,) if quick else (1, 2, 3, 6)):
@@ -236,6 +242,9 @@ def scenario(c, inst):
     from desolver.exception_types import FailedIntegration
     if c.symbolic:
         c.ackermann = False
+    if inst["where"] == "landing":
+        from . import events_common as EC
+        return EC.scenario(c, inst, {"C12"})
     if inst["where"] == "fp_richardson":
         return _fp_richardson(c, inst)
     if inst["where"] == "event":
